@@ -61,6 +61,7 @@ func (cache *Cache) Sign(message []byte) (sig hotstuff.QuorumSignature, err erro
 	var key strings.Builder
 	hash := sha256.Sum256(message)
 	_, _ = key.Write(hash[:])
+	writeSigners(&key, sig)
 	_, _ = key.Write(sig.ToBytes())
 	cache.insert(key.String())
 	return sig, nil
@@ -71,6 +72,7 @@ func (cache *Cache) Verify(signature hotstuff.QuorumSignature, message []byte) e
 	var key strings.Builder
 	hash := sha256.Sum256(message)
 	_, _ = key.Write(hash[:])
+	writeSigners(&key, signature)
 	_, _ = key.Write(signature.ToBytes())
 
 	if cache.check(key.String()) {
@@ -102,6 +104,7 @@ func (cache *Cache) BatchVerify(signature hotstuff.QuorumSignature, batch map[ho
 
 	var key strings.Builder
 	_, _ = key.Write(hash[:])
+	writeSigners(&key, signature)
 	_, _ = key.Write(signature.ToBytes())
 
 	if cache.check(key.String()) {
@@ -119,6 +122,15 @@ func (cache *Cache) BatchVerify(signature hotstuff.QuorumSignature, batch map[ho
 func (cache *Cache) Combine(signatures ...hotstuff.QuorumSignature) (hotstuff.QuorumSignature, error) {
 	// we don't cache the result of this operation, because it is not guaranteed to be valid.
 	return cache.impl.Combine(signatures...)
+}
+
+// writeSigners appends the claimed signer ids to a cache key: the same signature bytes
+// under other signer labels are a different signature.
+func writeSigners(key *strings.Builder, sig hotstuff.QuorumSignature) {
+	_, _ = key.Write(hotstuff.ID(sig.Participants().Len()).ToBytes())
+	sig.Participants().ForEach(func(id hotstuff.ID) {
+		_, _ = key.Write(id.ToBytes())
+	})
 }
 
 var _ crypto.Base = (*Cache)(nil)
